@@ -1933,6 +1933,141 @@ theorem pushUp_cases (rets : List Ret) (j : Nat) (v : Val) (σ1 : St) (ch : Opti
       simp only [Nat.sub_zero] at hr0 hlast
       exact ⟨o', r0, rfl, by simp [pushUp, hrv], hr0, hlast⟩
 
+/-- one macro level of an upward push: child `j` (state `τ`) has taken a new value `v` on its output
+`ch` (and nothing else changed among its outputs); `pushUp` forwards it to the macro output linked to
+that channel. All output links of the level hold again. -/
+theorem pushUp_level {args body rets oh srcs} (σ τ : St) (j : Nat) (m : Node) (v : Val) (ch : Option Nat)
+    (hb : body[j]? = some m) (hos : OutSync (.mac args body rets oh srcs) σ)
+    (i1 : OutSync m τ) (i2 : SameIn τ (σ.sub j))
+    (i3 : ∀ o', τ.get .out o' = if ch = some o' then v else (σ.sub j).get .out o')
+    (i4 : ∀ k, τ.get .uiOut k = (σ.sub j).get .uiOut k) :
+    OutSync (.mac args body rets oh srcs) (pushUp rets j v (σ.graft j τ) ch).1 ∧
+    SameIn (pushUp rets j v (σ.graft j τ) ch).1 σ ∧
+    (∀ o', (pushUp rets j v (σ.graft j τ) ch).1.get .out o' =
+      if (pushUp rets j v (σ.graft j τ) ch).2 = some o' then v else σ.get .out o') ∧
+    (∀ k, (pushUp rets j v (σ.graft j τ) ch).1.get .uiOut k = σ.get .uiOut k) := by
+  simp only [OutSync] at hos
+    have hkids : ∀ (σ' : St), (∀ jj, σ'.sub jj = (σ.graft j τ).sub jj) → OutSyncBody body 0 σ' := by
+      intro σ' hσ'
+      rw [outSyncBody_pointwise]
+      intro t n' hn'
+      rw [Nat.zero_add, hσ']
+      by_cases ht : t = j
+      · subst ht
+        rw [hb] at hn'; cases hn'
+        rw [St.sub_graft_same]; exact i1
+      · rw [St.sub_graft_other _ _ _ _ ht]
+        have := (outSyncBody_pointwise body 0 σ).mp hos.2 t n' hn'
+        simpa using this
+    have hret : ∀ (σ' : St) (x : Ret), (∀ jj, σ'.sub jj = (σ.graft j τ).sub jj) →
+        (∀ k, σ'.get .uiOut k = σ.get .uiOut k) →
+        (∀ o', x = .out j o' → ch ≠ some o') → retVal σ' x = retVal σ x := by
+      intro σ' x h1 h2 h3
+      cases x with
+      | arg k => exact h2 k
+      | out j' o' =>
+        simp only [retVal]
+        rw [h1]
+        by_cases hj : j' = j
+        · subst hj
+          rw [St.sub_graft_same, i3 o']
+          have := h3 o' rfl
+          simp [this]
+        · rw [St.sub_graft_other _ _ _ _ hj]
+    rcases pushUp_cases rets j v (σ.graft j τ) ch with ⟨hp, hnot⟩ | ⟨o', r0, hch, hp, hr0, hlast⟩
+    · rw [hp]
+      refine ⟨?_, sameIn_graft σ τ j i2, by intro o'; simp, by intro k; simp⟩
+      simp only [OutSync]
+      refine ⟨?_, hkids _ (fun _ => rfl)⟩
+      intro r x hr hx
+      rw [St.get_graft, hos.1 r x hr hx]
+      refine (hret _ x (fun _ => rfl) (fun k => St.get_graft _ _ _ _ _) ?_).symm
+      intro o'' hxe hch
+      subst hxe
+      exact hnot o'' hch (List.mem_of_getElem? hr)
+    · rw [hp]
+      subst hch
+      refine ⟨?_, ?_, ?_, by intro k; simp⟩
+      · simp only [OutSync]
+        refine ⟨?_, hkids _ (fun jj => by simp)⟩
+        intro r x hr hx
+        by_cases hxe : x = .out j o'
+        · subst hxe
+          have : r = r0 := last_occ_unique rets _ r r0 hr hx hr0 hlast
+          subst this
+          simp only [St.get_set, and_self, if_true, retVal, St.sub_set, St.sub_graft_same]
+          rw [i3 o']; simp
+        · have hne : r ≠ r0 := by
+            intro e; subst e
+            rw [hr0] at hr; cases hr; exact hxe rfl
+          simp only [St.get_set, hne, and_false, if_false, St.get_graft]
+          rw [hos.1 r x hr hx]
+          refine (hret _ x (fun jj => by simp) (fun k => by simp) ?_).symm
+          intro o'' hxe' hch
+          simp only [Option.some.injEq] at hch
+          subst hch
+          exact hxe hxe'
+      · exact fun q p k hp => by
+          have h1 := sameIn_set_out (σ.graft j τ) r0 v q p k hp
+          have h2 := sameIn_graft σ τ j i2 q p k hp
+          exact h1.trans h2
+      · intro o''
+        by_cases he : o'' = r0
+        · subst he; simp
+        · have : ¬ (r0 = o'') := fun e => he e.symm
+          simp [he, this]
+
+
+/-! ## histories -/
+
+/-- the states a macro instance goes through: construction, assignments to its own inputs
+(`macro.inputs.x = v`, keyword arguments of the constructor or of a call), successful runs, direct
+assignments to outputs of leaf children -/
+inductive Reach (n : Node) : St → Prop
+  | build : Reach n (build n)
+  | setIn {σ : St} (k : Nat) (v : Val) : Reach n σ → Reach n (setIn n σ k v)
+  | run {σ σ' : St} : Reach n σ → run n σ = some σ' → Reach n σ'
+  /-- `leaf_child.outputs.o.value = v` anywhere below the macro (the sending end of output links) -/
+  | setOutLeaf {σ : St} (p : Path) (o : Nat) (v : Val) : Reach n σ →
+  (∃ f s, nodeAt n p = some (.leaf f s)) → Reach n (setOutAt n σ p o v).1
+
+theorem anyNd_false_iff (f : Nat → Val) (n : Nat) : anyNd f n = false ↔ ∀ k, k < n → f k ≠ .nd := by
+  constructor
+  · intro h k hk
+simp only [anyNd, List.any_eq_false, List.mem_range] at h
+exact ne_nd_of_isNd_false (by simpa using h k hk)
+  · exact anyNd_false f n
+
+theorem run_some_inputs (n : Node) (σ σ' : St) (h : run n σ = some σ') : ∀ i, i < n.arity → σ.get .inp i ≠ .nd := by
+  cases n with
+  | leaf f srcs =>
+simp only [run] at h
+split at h
+· cases h
+· rename_i hnd
+  exact (anyNd_false_iff _ _).mp (by simpa [Node.arity] using hnd)
+  | mac args body rets oh s =>
+simp only [run] at h
+split at h
+· cases h
+· rename_i hnd
+  exact (anyNd_false_iff _ _).mp (by simpa [Node.arity] using hnd)
+
+theorem reach_inv (n : Node) (hwf : WF n) (hnd : NoDupH n) (σ : St) (h : Reach n σ) :
+Inv true n σ ∧ OutSync n σ := by
+  induction h with
+  | build => exact ⟨build_inv n hwf, build_outSync n⟩
+  | setIn k v _ ih => exact ⟨setIn_inv true n _ k v ih.1, setIn_outSync n _ k v ih.2⟩
+  | @run σ0 σ1 _ hrun ih =>
+obtain ⟨σ2, h2, _, hi, ho, _⟩ := run_value n σ0 (σ0.get .inp) hwf hnd ih.1 (fun _ _ => rfl)
+  (run_some_inputs n σ0 σ1 hrun)
+rw [hrun] at h2
+cases h2
+exact ⟨hi, ho⟩
+  | setOutLeaf p o v _ hleaf ih =>
+obtain ⟨h1, h2, _, _⟩ := setOutAt_leaf o v p n _ hleaf ih.2
+exact ⟨inv_sameIn true n _ _ h2 ih.1, h1⟩
+
 /-- assigning the output of a LEAF child at path `p` (the sending end of output links): stored, pushed
 up through every macro that returns it; all links stay in place -/
 theorem setOutAt_leaf (o : Nat) (v : Val) : ∀ (p : Path) (n : Node) (σ : St),
@@ -1966,136 +2101,16 @@ theorem setOutAt_leaf (o : Nat) (v : Val) : ∀ (p : Path) (n : Node) (σ : St),
       | none => simp [hb] at hn
       | some m =>
         simp only [hb] at hn
-        simp only [OutSync] at hos
         have hosm : OutSync m (σ.sub j) := by
-          have := (outSyncBody_pointwise body 0 σ).mp hos.2 j m hb
+          have h2 := hos
+          simp only [OutSync] at h2
+          have := (outSyncBody_pointwise body 0 σ).mp h2.2 j m hb
           simpa using this
         obtain ⟨i1, i2, i3, i4⟩ := ih m (σ.sub j) ⟨f, s, hn⟩ hosm
         simp only [setOutAt, hb]
         generalize (setOutAt m (σ.sub j) q o v).1 = τ at i1 i2 i3 i4 ⊢
         generalize (setOutAt m (σ.sub j) q o v).2 = ch at i3 ⊢
-        have hkids : ∀ (σ' : St), (∀ jj, σ'.sub jj = (σ.graft j τ).sub jj) → OutSyncBody body 0 σ' := by
-          intro σ' hσ'
-          rw [outSyncBody_pointwise]
-          intro t n' hn'
-          rw [Nat.zero_add, hσ']
-          by_cases ht : t = j
-          · subst ht
-            rw [hb] at hn'; cases hn'
-            rw [St.sub_graft_same]; exact i1
-          · rw [St.sub_graft_other _ _ _ _ ht]
-            have := (outSyncBody_pointwise body 0 σ).mp hos.2 t n' hn'
-            simpa using this
-        have hret : ∀ (σ' : St) (x : Ret), (∀ jj, σ'.sub jj = (σ.graft j τ).sub jj) →
-            (∀ k, σ'.get .uiOut k = σ.get .uiOut k) →
-            (∀ o', x = .out j o' → ch ≠ some o') → retVal σ' x = retVal σ x := by
-          intro σ' x h1 h2 h3
-          cases x with
-          | arg k => exact h2 k
-          | out j' o' =>
-            simp only [retVal]
-            rw [h1]
-            by_cases hj : j' = j
-            · subst hj
-              rw [St.sub_graft_same, i3 o']
-              have := h3 o' rfl
-              simp [this]
-            · rw [St.sub_graft_other _ _ _ _ hj]
-        rcases pushUp_cases rets j v (σ.graft j τ) ch with ⟨hp, hnot⟩ | ⟨o', r0, hch, hp, hr0, hlast⟩
-        · rw [hp]
-          refine ⟨?_, sameIn_graft σ τ j i2, by intro o'; simp, by intro k; simp⟩
-          simp only [OutSync]
-          refine ⟨?_, hkids _ (fun _ => rfl)⟩
-          intro r x hr hx
-          rw [St.get_graft, hos.1 r x hr hx]
-          refine (hret _ x (fun _ => rfl) (fun k => St.get_graft _ _ _ _ _) ?_).symm
-          intro o'' hxe hch
-          subst hxe
-          exact hnot o'' hch (List.mem_of_getElem? hr)
-        · rw [hp]
-          subst hch
-          refine ⟨?_, ?_, ?_, by intro k; simp⟩
-          · simp only [OutSync]
-            refine ⟨?_, hkids _ (fun jj => by simp)⟩
-            intro r x hr hx
-            by_cases hxe : x = .out j o'
-            · subst hxe
-              have : r = r0 := last_occ_unique rets _ r r0 hr hx hr0 hlast
-              subst this
-              simp only [St.get_set, and_self, if_true, retVal, St.sub_set, St.sub_graft_same]
-              rw [i3 o']; simp
-            · have hne : r ≠ r0 := by
-                intro e; subst e
-                rw [hr0] at hr; cases hr; exact hxe rfl
-              simp only [St.get_set, hne, and_false, if_false, St.get_graft]
-              rw [hos.1 r x hr hx]
-              refine (hret _ x (fun jj => by simp) (fun k => by simp) ?_).symm
-              intro o'' hxe' hch
-              simp only [Option.some.injEq] at hch
-              subst hch
-              exact hxe hxe'
-          · exact fun q p k hp => by
-              have h1 := sameIn_set_out (σ.graft j τ) r0 v q p k hp
-              have h2 := sameIn_graft σ τ j i2 q p k hp
-              exact h1.trans h2
-          · intro o''
-            by_cases he : o'' = r0
-            · subst he; simp
-            · have : ¬ (r0 = o'') := fun e => he e.symm
-              simp [he, this]
-
-
-/-! ## histories -/
-
-/-- the states a macro instance goes through: construction, assignments to its own inputs
-(`macro.inputs.x = v`, keyword arguments of the constructor or of a call), successful runs, direct
-assignments to outputs of leaf children -/
-inductive Reach (n : Node) : St → Prop
-  | build : Reach n (build n)
-  | setIn {σ : St} (k : Nat) (v : Val) : Reach n σ → Reach n (setIn n σ k v)
-  | run {σ σ' : St} : Reach n σ → run n σ = some σ' → Reach n σ'
-  /-- `leaf_child.outputs.o.value = v` anywhere below the macro (the sending end of output links) -/
-  | setOutLeaf {σ : St} (p : Path) (o : Nat) (v : Val) : Reach n σ →
-      (∃ f s, nodeAt n p = some (.leaf f s)) → Reach n (setOutAt n σ p o v).1
-
-theorem anyNd_false_iff (f : Nat → Val) (n : Nat) : anyNd f n = false ↔ ∀ k, k < n → f k ≠ .nd := by
-  constructor
-  · intro h k hk
-    simp only [anyNd, List.any_eq_false, List.mem_range] at h
-    exact ne_nd_of_isNd_false (by simpa using h k hk)
-  · exact anyNd_false f n
-
-theorem run_some_inputs (n : Node) (σ σ' : St) (h : run n σ = some σ') : ∀ i, i < n.arity → σ.get .inp i ≠ .nd := by
-  cases n with
-  | leaf f srcs =>
-    simp only [run] at h
-    split at h
-    · cases h
-    · rename_i hnd
-      exact (anyNd_false_iff _ _).mp (by simpa [Node.arity] using hnd)
-  | mac args body rets oh s =>
-    simp only [run] at h
-    split at h
-    · cases h
-    · rename_i hnd
-      exact (anyNd_false_iff _ _).mp (by simpa [Node.arity] using hnd)
-
-theorem reach_inv (n : Node) (hwf : WF n) (hnd : NoDupH n) (σ : St) (h : Reach n σ) :
-    Inv true n σ ∧ OutSync n σ := by
-  induction h with
-  | build => exact ⟨build_inv n hwf, build_outSync n⟩
-  | setIn k v _ ih => exact ⟨setIn_inv true n _ k v ih.1, setIn_outSync n _ k v ih.2⟩
-  | @run σ0 σ1 _ hrun ih =>
-    obtain ⟨σ2, h2, _, hi, ho, _⟩ := run_value n σ0 (σ0.get .inp) hwf hnd ih.1 (fun _ _ => rfl)
-      (run_some_inputs n σ0 σ1 hrun)
-    rw [hrun] at h2
-    cases h2
-    exact ⟨hi, ho⟩
-  | setOutLeaf p o v _ hleaf ih =>
-    obtain ⟨h1, h2, _, _⟩ := setOutAt_leaf o v p n _ hleaf ih.2
-    exact ⟨inv_sameIn true n _ _ h2 ih.1, h1⟩
-
-
+        exact pushUp_level σ τ j m v ch hb (by simpa [OutSync] using hos) i1 i2 i3 i4
 
 /-! ## a parameter nobody uses -/
 
